@@ -266,6 +266,27 @@ impl Universe for AddrValues {
                         Self::emit(&AV::V6 { src: groups_to_octets(*s), dst: groups_to_octets(*d), sport: 12345, dport: 54321 }, &mut buf, f);
                     }
                 }
+                // related endpoints: destination = source with one group changed (each of the 8), with the upper half
+                // replaced, with the lower half replaced -- and the same with the roles exchanged.  A comparison or a
+                // "same endpoint" shortcut that looks at part of the address only is wrong exactly here.
+                for s in &specials {
+                    let mut variants: Vec<[u16; 8]> = Vec::new();
+                    for g in 0..8 {
+                        let mut d = *s;
+                        d[g] ^= 0x0101;
+                        variants.push(d);
+                    }
+                    let mut hi = *s;
+                    hi[..4].copy_from_slice(&[0x2001, 0x0db8, 0xaaaa, 0xbbbb]);
+                    variants.push(hi);
+                    let mut lo = *s;
+                    lo[4..].copy_from_slice(&[0xcccc, 0xdddd, 0x0, 0x9]);
+                    variants.push(lo);
+                    for d in &variants {
+                        Self::emit(&AV::V6 { src: groups_to_octets(*s), dst: groups_to_octets(*d), sport: 40000, dport: 40001 }, &mut buf, f);
+                        Self::emit(&AV::V6 { src: groups_to_octets(*d), dst: groups_to_octets(*s), sport: 40001, dport: 40000 }, &mut buf, f);
+                    }
+                }
             }
             _ => {
                 if self.with_unix {
